@@ -167,8 +167,41 @@ def run_case(case) -> Result:
     at = min(at, len(responses) - 1)
     st8 = dict(n=0, mutant=None, authentic=None)
 
+    disco_attack = case.get("spec", {}).get("then_disco") if case["kind"] == "forgery" else None
+
+    def forge_disco(agent, req, resp, how):
+        """what an on-path attacker can put in place of a (never authenticated) discovery reply"""
+        m = vber.parse_message(resp)
+        rid = m["pdu"]["rid"]
+        vbs = m["pdu"]["vbs"]
+        if how == "es2":
+            body = vber.enc_scoped_pdu(m["ctx_engine"], m["ctx_name"], vber.enc_pdu(vber.PDU_REPORT, rid, 2, 1, vbs))
+            return agent.build_v3(m["msg_id"], 0, b"", body)
+        if how == "es5_response":
+            body = vber.enc_scoped_pdu(m["ctx_engine"], m["ctx_name"], vber.enc_pdu(vber.PDU_RESPONSE, rid, 5, 0, vbs))
+            return agent.build_v3(m["msg_id"], 0, b"", body)
+        if how == "other_engine":
+            body = vber.enc_scoped_pdu(OTHER_ENGINE, b"", vber.enc_pdu(vber.PDU_REPORT, rid, 0, 0, vbs))
+            return agent.build_v3(m["msg_id"], 0, b"", body, engine_id=OTHER_ENGINE)
+        if how == "other_time":
+            body = vber.enc_scoped_pdu(m["ctx_engine"], m["ctx_name"], vber.enc_pdu(vber.PDU_REPORT, rid, 0, 0, vbs))
+            return agent.build_v3(m["msg_id"], 0, b"", body, boots=agent.boots + 7, time=5)
+        if how == "novb":
+            body = vber.enc_scoped_pdu(m["ctx_engine"], m["ctx_name"], vber.enc_pdu(vber.PDU_REPORT, rid, 0, 0, []))
+            return agent.build_v3(m["msg_id"], 0, b"", body)
+        raise ValueError(how)
+
     def mangle(agent, req, resp):
         if req.get("discovery"):
+            # multi-step attack: every discovery exchange AFTER the attacked response (e.g. a re-discovery the first
+            # forgery provoked) -- or, with at == -1, the very first one -- is answered by the attacker as well
+            if disco_attack and (st8["mutant"] is not None or case.get("disco_first")):
+                st8["disco_forged"] = st8.get("disco_forged", 0) + 1
+                if st8["mutant"] is None:
+                    st8["mutant"] = st8["authentic"] = b""
+                out = forge_disco(agent, req, resp, disco_attack)
+                st8["mutant"] = st8["mutant"] + out
+                return out
             return resp
         i = st8["n"]
         st8["n"] += 1
@@ -192,6 +225,8 @@ def run_case(case) -> Result:
     classes = [vworld.proto_label(proto), "op=" + op, case["kind"]]
     if case["kind"] == "forgery":
         classes.append("payload=" + case["spec"]["payload"])
+        if case["spec"].get("then_disco"):
+            classes.append("multi_step_with_forged_discovery")
     exc = res = None
     hits0 = vsandbox.GUARD_HITS[0]
     try:
@@ -271,16 +306,20 @@ SPEC = st.fixed_dictionaries(dict(
     user=st.sampled_from(["same", "same", "same", "other", "empty"]),
     engine=st.sampled_from(["same", "same", "same", "other"]),
     payload=st.sampled_from(["evil_plain", "evil_plain", "evil_plain", "plain_authentic", "orig", "garbage_cipher",
-                             "report_usm", "report_any", "report_any", "report_empty", "report_empty"]),
+                             "report_usm", "report_usm", "report_any", "report_any", "report_empty", "report_empty"]),
+    then_disco=st.sampled_from([None, None, None, "es2", "es2", "es5_response", "other_engine", "other_time", "novb"]),
     es=st.sampled_from([0, 0, 2, 5]), ei=st.sampled_from([0, 1]), n=st.integers(0, 23), drop_salt=st.booleans()))
 
 
 @st.composite
 def forgeries(draw):
     op = draw(st.sampled_from(OPS))
-    return dict(kind="forgery", user=draw(st.integers(0, len(USERS) - 1)), op=op,
+    case = dict(kind="forgery", user=draw(st.integers(0, len(USERS) - 1)), op=op,
                 at=draw(st.integers(0, 2)) if op in WALKS else 0, fill=draw(st.sampled_from([5, 5, 60, 170])),
                 spec=draw(SPEC))
+    if case["spec"]["then_disco"] and draw(st.integers(0, 3)) == 0:
+        case["disco_first"] = True      # the attacker already answers the client's first discovery
+    return case
 
 
 def units(tier, seed):
